@@ -309,22 +309,21 @@ Qed.
 Lemma cloop_run_core k : forall n idx v lim a b, core_eq a b ->
   core_eq (cloop_run fr k n idx v lim a) (cloop_run fr k n idx v lim b).
 Proof.
-  induction k as [|k IH]; intros n idx v lim a b H; simpl; [apply ce_w_cerr; exact H|].
+  induction k as [|k IH]; intros n idx v lim a b H; cbn [cloop_run]; [apply ce_w_cerr; exact H|].
   destruct (loop_allows (loopCondOp n) v lim) as [al|].
   - rewrite (ce_brkD a b H).
     destruct (negb (al && Nat.eqb (brkD b) 0)); [apply ce_dec_brk; exact H|].
     destruct (body_core (child n) (ctx_set a (loopCnt n) (VLC idx) InsStatic) (ctx_set b (loopCnt n) (VLC idx) InsStatic) false
                 (ce_ctx_set _ _ _ _ _ H)) as [B1 B2].
-    unfold ctx_set in B1, B2 |- *.
-    destruct (body fr (child n) (w_vars a (set_var (vars a) (loopCnt n) (VLC idx) InsStatic)) false) as [a1 ba].
-    destruct (body fr (child n) (w_vars b (set_var (vars b) (loopCnt n) (VLC idx) InsStatic)) false) as [b1 bb].
-    simpl in B1, B2. subst bb.
+    destruct (body fr (child n) (ctx_set a (loopCnt n) (VLC idx) InsStatic) false) as [a1 ba].
+    destruct (body fr (child n) (ctx_set b (loopCnt n) (VLC idx) InsStatic) false) as [b1 bb].
+    cbn [fst snd] in B1, B2. subst bb.
     destruct ba; try (apply ce_w_cerr; exact B1);
       (destruct (step64 (loopCntOp n) v);
        [rewrite (ce_bufLC a1 b1 B1);
-        first [apply IH; apply ce_w_bufLC; exact B1 | apply ce_dec_brk; apply ce_w_bufLC; exact B1]
-       |first [apply IH; apply ce_w_cerr; exact B1 | apply ce_dec_brk; apply ce_w_cerr; exact B1]]).
-  - simpl. apply ce_dec_brk. apply ce_w_cerr. exact H.
+        first [apply IH; apply ce_ctx_set; apply ce_w_bufLC; exact B1 | apply ce_dec_brk; apply ce_ctx_set; apply ce_w_bufLC; exact B1]
+       |first [apply IH; apply ce_ctx_set; apply ce_w_cerr; exact B1 | apply ce_dec_brk; apply ce_ctx_set; apply ce_w_cerr; exact B1]]).
+  - cbn [negb andb]. apply ce_dec_brk. apply ce_w_cerr. exact H.
 Qed.
 
 Lemma cloop_core k n a b : core_eq a b -> core_eq (cloop fr k n a) (cloop fr k n b).
